@@ -189,13 +189,14 @@ func relayDifferential(rules []string, badReceiver bool) []explore.Finding {
 func modelsC11(tier string) ([]*PktModel, []int) {
 	props := map[string]bool{"C11": true}
 	ruleSets := map[string][]string{
-		"no-rules":          {},
-		"exact-allow":       {A + "," + C + ",NFT"},
-		"allow-all":         {"*,*,*"},
-		"other-port-only":   {A + "," + C + ",MT"},
-		"other-dest-only":   {A + "," + D + ",*"},
-		"wildcard-src-port": {"*," + C + ",*"},
-		"prefix-of-port":    {A + "," + C + ",NF", A + "," + C + ",tibc", A + "," + C[:len(C)-1] + ",*"},
+		"no-rules":            {},
+		"exact-allow":         {A + "," + C + ",NFT"},
+		"allow-all":           {"*,*,*"},
+		"other-port-only":     {A + "," + C + ",MT"},
+		"other-dest-only":     {A + "," + D + ",*"},
+		"wildcard-src-port":   {"*," + C + ",*"},
+		"matching-rule-first": {A + "," + C + ",*", "q,r,s", C + "," + A + ",MT"},
+		"prefix-of-port":      {A + "," + C + ",NF", A + "," + C + ",tibc", A + "," + C[:len(C)-1] + ",*"},
 	}
 	var names []string
 	for n := range ruleSets {
@@ -246,7 +247,7 @@ func CheckC11(tier string) int {
 		extra = append(extra, relayDifferential([]string{"*,*,*"}, bad)...)
 	}
 	return RunPktExtra("C11", tier, models, depth, tierBudget(tier, 100*time.Second, 15*time.Minute), append([]string{
-		"rule sets on the relay chain: none, exact allow, *,*,*, other port only, other destination only, wildcard source/port; NFT transfers A->C through B to a valid and to an invalid receiver (error acknowledgement on the destination) plus a mock-port packet; all relay orders",
+		"rule sets on the relay chain: none, exact allow, *,*,*, other port only, other destination only, wildcard source/port, a matching rule followed by two that do not match, rules that are prefixes of the real names; NFT transfers A->C through B to a valid and to an invalid receiver (error acknowledgement on the destination) plus a mock-port packet; all relay orders",
 		"routing ghost: literal field-wise match with '*'; the relay chain must re-commit exactly sha256(data) iff allowed, otherwise record an error acknowledgement that the source accepts; its nft/mt/transfer stores stay byte-identical and it emits no application event; the bytes the source processes equal the bytes written where the acknowledgement originated",
 		"differential: token state of A and C after the complete relayed transfer equals that after the same direct transfer (valid and invalid receiver)",
 	}, commonAssumptions...), extra)
